@@ -257,7 +257,14 @@ def units(tier):
         if not any(o.status == FAILED for o in r.obligations):
             U.must_fail_twin(r, "vacuity.must_fail_twin", lambda: unit_llnl_interp(twin=True))
         return r
-    return [("C16.gammas.species_loop", g), ("C16.gammas.llnl_interpolation", l)]
+    us = [("C16.gammas.species_loop", g), ("C16.gammas.llnl_interpolation", l)]
+    from props import c16_pitzer as PZ
+    from props.common import wrap as _wrap
+    _wrap(us, "C16.pitzer.ETHETAS.ethetap==d(etheta)/dI", PZ.unit_ethetas)
+    _wrap(us, "C16.pitzer.ETHETA_PARAMS.JPRIME==x*dJ/dx", PZ.unit_etheta_params)
+    from props import c16_sit as ST
+    _wrap(us, "C16.sit.sums_over_all_solutes_and_DH_term", ST.unit_sit)
+    return us
 
 
 def run(tier, seed, only, jobs):
